@@ -198,6 +198,11 @@ def do_envelope(rec, rng, dom=None, forest=None):
         l1_key=blob(rng, rng.choice([0, 64, 1, 63])),
         l2_key=blob(rng, rng.choice([0, 64, 72, 776, 5])),
     )
+    if rng.random() < 0.35:
+        # the shapes a DC really sends (MS-GKDI 2.2.4): positions 0..31 incl. the 31-edges, flags 0..3, key fields of 0 / 64
+        # bytes in every combination (the codec must carry whatever it is given: both keys present at L2 = 31 included)
+        e.update(version=1, flags=rng.choice([0, 1, 2, 3]), l0=rng.choice([0, 361, 2**31 - 1]), l1=rng.choice([0, 1, 30, 31, rng.randrange(32)]), l2=rng.choice([0, 30, 31, 31, rng.randrange(32)]), kdf_algorithm="SP800_108_CTR_HMAC", secret_algorithm=rng.choice(["DH", "ECDH_P256", "ECDH_P384"]), private_key_length=rng.choice([256, 384, 512]), public_key_length=rng.choice([256, 384, 2048]), l1_key=rng.choice([b"", rng.randbytes(64)]), l2_key=rng.choice([b"", rng.randbytes(64), rng.randbytes(64), rng.randbytes(72)]))
+        rec.count("envelope_dc_shapes")
     wit = {"struct": "envelope", "fields": {k: (str(v) if not isinstance(v, (bytes, str, int)) else v) for k, v in e.items()}}
     obj = G().GroupKeyEnvelope(**e)
     check_struct(rec, "envelope", obj, rg.enc_envelope(e), G().GroupKeyEnvelope.unpack, wit)
